@@ -55,6 +55,12 @@ pub fn string_streams(tag: u64, tier: Tier, seed: u64, scale: f64) -> Vec<Stream
             format!("s:{}", strings::padded_tail(pad, &tail))
         }));
     }
+    {
+        let th = matches!(tier, Tier::Thorough);
+        v.push(Stream::new("repeated-fragments-across-size-boundaries", strings::repeated_count(th), true, move |i| {
+            format!("s:{}", strings::repeated_case(i, th))
+        }));
+    }
     v.push(Stream::new("nesting-bombs", n(600, 20_000), false, move |i| {
         let mut r = Rng::new(mix(&[seed, tag, 4, i]));
         format!("s:{}", strings::nesting_bomb(&mut r))
